@@ -245,6 +245,85 @@ Definition slots (k : kind) (ran : rsp) (raw_oop : pyval -> M pyval) (raw_ip : p
   | KIp => (raw_ip, default_oop ran raw_ip)
   end.
 
+(* ---- the same three functions as interpreters of the step lists REGENERATED from the source
+   (Gen/C03Bodies.v: call_plan_ip, call_plan_oop, default_oop_plan, default_ip_plan, new_slots);
+   C03/Proofs.v proves them equal to the hand-written definitions above. ---- *)
+Record pstate := { p_x : pyval; p_out : option pyval; p_res : pyval }.
+Definition run_step (dom : space) (ran : rsp) (ip : pyval -> pyval -> M pyval) (oop : pyval -> M pyval)
+    (t : step) (st : pstate) : M pstate :=
+  let x := p_x st in
+  match t with
+  | StCastX =>
+      inx <- (fun s => Ok (in_space dom x s) s) ;;
+      xo <- (if inx then ret (Some x) else cast_space dom x) ;;
+      match xo with
+      | Some x' => ret {| p_x := x'; p_out := p_out st; p_res := p_res st |}
+      | None => fail EDomain
+      end
+  | StCheckOut =>
+      match p_out st with
+      | Some y => iny <- (fun s => Ok (in_rsp ran y s) s) ;; if negb iny then fail ERange else ret st
+      | None => fail EOther
+      end
+  | StNoOutForFunctional => match ran with RField => fail EFunctionalOut | RSp _ => ret st end
+  | StCallIp =>
+      match p_out st with
+      | Some y => r <- ip x y ;; ret {| p_x := x; p_out := p_out st; p_res := r |}
+      | None => fail EOther
+      end
+  | StCheckReturn =>
+      match p_res st, p_out st with
+      | VNone, Some _ => ret st
+      | VElem i, Some (VElem j) => if (i =? j)%nat then ret st else fail EBadReturn
+      | _, _ => fail EBadReturn
+      end
+  | StCallOop => r <- oop x ;; ret {| p_x := x; p_out := Some r; p_res := p_res st |}
+  | StCastResult =>
+      match p_out st with
+      | Some r =>
+          inr <- (fun s => Ok (in_rsp ran r s) s) ;;
+          if inr then ret st
+          else ro <- cast_rsp ran r ;;
+               match ro with
+               | Some r' => ret {| p_x := x; p_out := Some r'; p_res := p_res st |}
+               | None => fail ERange
+               end
+      | None => fail EOther
+      end
+  | StNewOut =>
+      match ran with
+      | RSp sp => o <- alloc_empty sp ;; ret {| p_x := x; p_out := Some (VElem o); p_res := p_res st |}
+      | RField => fail EOther
+      end
+  | StAssignCastOop =>
+      r <- oop x ;; ro <- cast_rsp ran r ;;
+      match ro, p_out st with
+      | Some (VElem i), Some (VElem o) => _ <- do_assign o i ;; ret st
+      | None, _ => fail EBadReturn
+      | _, _ => fail EOther
+      end
+  | StReturnOut => ret st
+  end.
+(* runs the steps; `return out` ends the function with out, falling off the end returns None *)
+Fixpoint run_steps (dom : space) (ran : rsp) ip oop (l : list step) (st : pstate) : M pyval :=
+  match l with
+  | [] => ret VNone
+  | StReturnOut :: _ => match p_out st with Some y => ret y | None => fail EOther end
+  | t :: l' => st' <- run_step dom ran ip oop t st ;; run_steps dom ran ip oop l' st'
+  end.
+Definition public_call_gen dom ran ip oop (x : pyval) (out : option pyval) : M pyval :=
+  run_steps dom ran ip oop (match out with Some _ => call_plan_ip | None => call_plan_oop end)
+            {| p_x := x; p_out := out; p_res := VNone |}.
+Definition default_oop_gen (ran : rsp) ip (x : pyval) : M pyval :=
+  run_steps (0, 0)%nat ran ip (fun _ => fail EOther) default_oop_plan {| p_x := x; p_out := None; p_res := VNone |}.
+Definition default_ip_gen (ran : rsp) oop (x out : pyval) : M pyval :=
+  run_steps (0, 0)%nat ran (fun _ _ => fail EOther) oop default_ip_plan {| p_x := x; p_out := Some out; p_res := VNone |}.
+Definition slots_gen (k : kind) (ran : rsp) (raw_oop : pyval -> M pyval) (raw_ip : pyval -> pyval -> M pyval)
+  : (pyval -> pyval -> M pyval) * (pyval -> M pyval) :=
+  let pick_ip (sl : slot) := match sl with SlDefaultIp => default_ip_gen ran raw_oop | _ => raw_ip end in
+  let pick_oop (sl : slot) := match sl with SlDefaultOop => default_oop_gen ran raw_ip | _ => raw_oop end in
+  (pick_ip (fst (new_slots k)), pick_oop (snd (new_slots k))).
+
 (* ---------------------------------------------------- body interpreter *)
 Record env := { e_x : pyval; e_out : option pyval; e_tmp : list (nat * pyval);
                 e_sc : list (nat * V); e_last : pyval }.
